@@ -260,6 +260,12 @@ class Ctx:
 				if v:
 					self.count(k, v)
 					cb.STATS[k] = 0
+		sm = sys.modules.get("vf.sim")
+		cap = getattr(sm, "_capture", None) if sm is not None else None
+		if cap is not None and cap.low_records:
+			# worlds run at the application's default log level: debug / info statements executed and formatted
+			self.count("debug_and_info_log_records_formatted", cap.low_records)
+			cap.low_records = 0
 
 	def finish(self):
 		""" Write evidence, print verdict lines, return the exit code. """
